@@ -105,9 +105,19 @@ func CheckSign(e *Env, prop string) (int, error) {
 			}
 			jobs = append(jobs, &Job{Bin: bin, Variant: "asm", World: "sign", Prop: prop, From: 0, N: 4, Extra: []string{"-trace"}})
 			jobs = append(jobs, SplitRuns(bin, "asm", "sign", prop, 4, perRound-4, perJob)...)
+			if prop == "C14" {
+				jobs = append(jobs, SplitRuns(bin, "asm", "pool", prop, 0, 4000, 1000)...)
+			}
 			return jobs
 		}
-		return SplitRuns(bin, "asm", "sign", prop, round*perRound, perRound, perJob)
+		jobs = SplitRuns(bin, "asm", "sign", prop, round*perRound, perRound, perJob)
+		if prop == "C14" {
+			// key derivation from points in any projective representative and
+			// after any history: pool-world histories tuned to Schnorr key
+			// construction, judged against the model (replaces 4 sign jobs)
+			jobs = append(jobs[:len(jobs)-4], SplitRuns(bin, "asm", "pool", prop, round*4000, 4000, 1000)...)
+		}
+		return jobs
 	})
 	if err != nil {
 		return 2, err
@@ -125,10 +135,13 @@ func CheckSign(e *Env, prop string) (int, error) {
 	if sampledNontrivial < 0 {
 		sampledNontrivial = 0
 	}
+	if prop == "C14" {
+		rule += " For C14, (c) seeded pool-world call histories (<= 80 API calls over a mutable object pool, tuned to Schnorr key construction from byte strings, ECDSA keys and pool points in re-randomised projective representatives) are counted among the sampled histories; every derived Schnorr key is judged against the model."
+	}
 	cov := map[string]any{
-		"evaluations":                           a.ByWorld["sign"] + a.EnumCases,
+		"evaluations":                           a.ByWorld["sign"] + a.ByWorld["pool"] + a.EnumCases,
 		"distinct_nontrivial":                   sampledNontrivial + a.EnumDistinctNontrivial,
-		"sampled_histories":                     a.ByWorld["sign"],
+		"sampled_histories":                     a.ByWorld["sign"] + a.ByWorld["pool"],
 		"sampled_distinct_nontrivial_histories": sampledNontrivial,
 		"enumerated_distinct_nontrivial_cases":  a.EnumDistinctNontrivial,
 		"rule":                                  rule,
